@@ -1851,18 +1851,18 @@ selftest(
            _OUT_SET.replace('else:\n                            model.set_val', 'elif not case_is_dict:\n                            model.set_val', 1),
            'C19.nodrop'),
     Mutant('nodrop-dict-outputs-elif', PRB,
-           "            if 'inputs' in case:\n                inputs = {meta['prom_name']: meta for meta in case['inputs'].values()}\n"
+           "            if 'inputs' in case:\n                inputs = case['inputs']\n"
            "            else:\n                inputs = None\n            if 'outputs' in case:\n"
            "                outputs = {meta['prom_name']: meta for meta in case['outputs'].values()}\n            else:\n                outputs = None\n",
            "            inputs = outputs = None\n            if 'inputs' in case:\n"
-           "                inputs = {meta['prom_name']: meta for meta in case['inputs'].values()}\n            elif 'outputs' in case:\n"
+           "                inputs = case['inputs']\n            elif 'outputs' in case:\n"
            "                outputs = {meta['prom_name']: meta for meta in case['outputs'].values()}\n", 'C19.nodrop'),
     Twin('twin-dict-chained-default', PRB,
-         "            if 'inputs' in case:\n                inputs = {meta['prom_name']: meta for meta in case['inputs'].values()}\n"
+         "            if 'inputs' in case:\n                inputs = case['inputs']\n"
          "            else:\n                inputs = None\n            if 'outputs' in case:\n"
          "                outputs = {meta['prom_name']: meta for meta in case['outputs'].values()}\n            else:\n                outputs = None\n",
          "            inputs = outputs = None\n            if 'inputs' in case:\n"
-         "                inputs = {meta['prom_name']: meta for meta in case['inputs'].values()}\n            if 'outputs' in case:\n"
+         "                inputs = case['inputs']\n            if 'outputs' in case:\n"
          "                outputs = {meta['prom_name']: meta for meta in case['outputs'].values()}\n"),
     Mutant('endpoint-autoivc-through-inputs', PRB, 'abs_names = (resolver.source(name),)', "abs_names = resolver.absnames(name, 'input')",
            'C19.endpoint'),
@@ -1920,17 +1920,18 @@ selftest(
     Mutant('endpoint-source-dropped', PRB, '(resolver.source(name),)', 'resolver.absnames(name)', 'C19.endpoint'),
     Mutant('endpoint-absnames-input', PRB, "abs_names = resolver.absnames(name, 'output')",
            "abs_names = resolver.absnames(name, 'input')", 'C19.endpoint'),
-    # ---- findings (a) recorder-relative promoted output names and (b) dict-form inputs keyed by promoted
-    # name, as seen from the repaired shape (/tmp/c19/candidate_fix_ab.patch); inapplicable until repaired
-    Mutant('finding-outputs-relative-names@repaired', PRB,
-           "rec_abs = [n for n in outputs._prom2abs.get(name, ()) if resolver.is_abs(n, 'output')]", 'rec_abs = ()',
-           'C19.keyspace'),
-    Mutant('finding-dict-inputs-by-prom@repaired', PRB, "                inputs = case['inputs']\n",
+    # ---- finding (b), repaired in /repo: dict-form inputs re-keyed by promoted name (pre-fix shape)
+    Mutant('finding-dict-inputs-by-prom', PRB, "                inputs = case['inputs']\n",
            "                inputs = {meta['prom_name']: meta for meta in case['inputs'].values()}\n", 'C19.keyspace'),
-    Mutant('repaired-rec-abs-wrong-io@repaired', PRB,
-           "rec_abs = [n for n in outputs._prom2abs.get(name, ()) if resolver.is_abs(n, 'output')]",
-           "rec_abs = [n for n in outputs._prom2abs.get(name, ()) if resolver.is_abs(n, 'input')]",
-           ['C19.keyspace', 'C19.endpoint']),
+    # ---- finding (a), registered as known: the candidate repair (recorded absolute names first) is accepted
+    Twin('twin-candidate-repair-relative-names', PRB,
+         "                if resolver.is_prom(name):\n                    if case_is_dict:\n                        val = outputs[name]['val']\n",
+         "                if case_is_dict:\n                    rec_abs = ()\n                else:\n"
+         "                    rec_abs = [n for n in outputs._prom2abs.get(name, ()) if resolver.is_abs(n, 'output')]\n\n"
+         "                if rec_abs or resolver.is_prom(name):\n                    if case_is_dict:\n                        val = outputs[name]['val']\n",
+         also=[(PRB, "                    if resolver.is_prom(name, 'output'):\n                        abs_names = resolver.absnames(name, 'output')\n",
+                "                    if rec_abs:\n                        abs_names = rec_abs\n"
+                "                    elif resolver.is_prom(name, 'output'):\n                        abs_names = resolver.absnames(name, 'output')\n")]),
     # ---- the two findings of this module, as seen from the repaired shape
     Mutant('finding-outputs-through-inputs', PRB, _FAN_FIXED, _FAN, 'C19.endpoint'),
     Mutant('finding-inputs-keyspace', PRB, _IN_HDR_FIXED, _IN_HDR, 'C19.keyspace'),
@@ -1964,8 +1965,8 @@ selftest(
     Twin('twin-set-later-any', PRB, _LATER_LOOP, _LATER_ANY),
     Twin('twin-final-temp-receiver', PRB, _FINAL, _FINAL_TEMP),
     Twin('twin-dict-default-then-override', PRB,
-         "                inputs = {meta['prom_name']: meta for meta in case['inputs'].values()}\n            else:\n                inputs = None\n",
-         "                inputs = {meta['prom_name']: meta for meta in case['inputs'].values()}\n"),
+         "            if 'inputs' in case:\n                inputs = case['inputs']\n            else:\n                inputs = None\n",
+         "            inputs = None\n            if 'inputs' in case:\n                inputs = case['inputs']\n"),
     Mutant('refactored-any-without-dot', PRB, _LATER_LOOP, _LATER_ANY.replace("pathname + '.'", 'pathname'), 'C19.deferred'),
     Mutant('refactored-any-swapped', PRB, _LATER_LOOP,
            "            return any(pathname.startswith(var_name + '.') for pathname in system_overrides)\n", 'C19.deferred'),
